@@ -5,6 +5,7 @@ it never panics, and accepts exactly the sentences of the grammar, returning the
 -/
 import KikiVerif.Proofs.Assemble
 import KikiVerif.Proofs.Run
+import KikiVerif.Proofs.Tight
 import KikiVerif.Model.Driver
 
 set_option linter.unusedSimpArgs false
@@ -99,6 +100,119 @@ theorem emitted_parser_correct {P : Type} (ok : CtxOK c) {fuel : Nat} (hm : mach
     rw [← runCfg_congr (fun cfg => step_eq (fm := fm) cells cfg), (auto_eq (fm := fm) cells).2.2]
     exact hrun
   exact ⟨(run_sound hs fuel' _ [] .base _ _ hrun').1, run_ok_iff hs hc w fuel' r cf hrun'⟩
+
+/-- the derivation tree itself is what is returned -/
+theorem emitted_parser_tree {P : Type} (ok : CtxOK c) {fuel : Nat} (hm : machineOf c fuel = some (some m))
+    (ht : machineToTable c m = .ok t) (w : List (Tok Nat P)) (fuel' : Nat) (tr : Tree Nat P) (cf : Cfg Nat P)
+    (hrun : runCfg c.g (Driver.autoOfTable t) fuel' ⟨[(Driver.autoOfTable t).start], [], w⟩ = some (.ok tr, cf)) :
+    WF c.g tr (.n c.g.start) ∧ tr.yield = w := by
+  obtain ⟨fm, hk, cells⟩ := generator_checked ok hm ht
+  have hs := Valid.sound_of_checked hk
+  have hrun' : runCfg c.g (Valid.mkAuto (certOf c fm m t)) fuel'
+      ⟨[(Valid.mkAuto (certOf c fm m t)).start], [], w⟩ = some (.ok tr, cf) := by
+    rw [← runCfg_congr (fun cfg => step_eq (fm := fm) cells cfg), (auto_eq (fm := fm) cells).2.2]
+    exact hrun
+  have := (run_sound hs fuel' _ [] .base _ _ hrun').2.2 tr rfl
+  simpa using this
+
+/-! ### viable prefixes: the automaton is tight -/
+
+def decRule (c : Ctx) (r : Nat) : Option Nat := if r = c.numRules then none else some r
+
+theorem decode_rule (x : Item) : (decodeItem c x).rule = decRule c x.rule := rfl
+
+theorem rhsOf_dec {r d : Nat} {X : Sym Nat Nat} (h : (rhsOf c r)[d]? = some X) :
+    c.g.rhsOf (decRule c r) = some (rhsOf c r) := by
+  unfold decRule
+  by_cases e : r = c.numRules
+  · rw [if_pos e]; unfold rhsOf; rw [if_pos e]; rfl
+  · rw [if_neg e]
+    unfold rhsOf at h ⊢
+    rw [if_neg e] at h ⊢
+    cases hr : c.g.rules[r]? with
+    | none => rw [hr] at h; simp at h
+    | some rule => simp [Grammar.rhsOf, hr]
+
+/-- generation at the level of coded cores is generation in the sense of `LR/Via.lean` -/
+theorem coreReach_of_creach {K : Option Nat → Nat → Prop} {KC : Core → Prop}
+    (hK : ∀ p, KC p → K (decRule c p.1) p.2) {q : Core} (h : CReach c fm KC q) :
+    CoreReach c.g K (decRule c q.1) q.2 := by
+  induction h with
+  | kernel hk => exact .kernel (hK _ hk)
+  | @step p q _ hi ih =>
+    unfold impliedCores at hi
+    split at hi
+    · rename_i b hb
+      split at hi
+      · obtain ⟨j, hj, rfl⟩ := List.mem_map.mp hi
+        unfold ruleIndicesFor at hj
+        simp only [List.mem_map, List.mem_filter, beq_iff_eq] at hj
+        obtain ⟨⟨rule, j'⟩, ⟨hm, hl⟩, rfl⟩ := hj
+        have hz := List.mem_zipIdx hm
+        simp at hz
+        simp only at hl ⊢
+        have hjr : c.g.rules[j']? = some rule := by rw [List.getElem?_eq_getElem hz.1]; exact congrArg some hz.2.symm
+        have hne : j' ≠ c.numRules := by unfold Ctx.numRules; omega
+        have hdec : decRule c j' = some j' := by unfold decRule; rw [if_neg hne]
+        rw [hdec]
+        exact .step ih (rhsOf_dec hb) (by rw [hb, hl]) hjr
+      · cases hi
+    · cases hi
+
+theorem coreSound_of_generator (ok : CtxOK c) (mok : MachineOK c fm m) (cells : Cells c m t) :
+    CoreSound c.g (Valid.mkAuto (certOf c fm m t)) ∧ NonEmpty (Valid.mkAuto (certOf c fm m t)) := by
+  constructor
+  · constructor
+    · intro r d a hit
+      obtain ⟨x, hx, e⟩ := (items_certOf (c := c) (fm := fm) (t := t) m.start ⟨r, d, a⟩).mp hit
+      have := coreReach_of_creach (K := fun r d => r = none ∧ d = 0) (by
+        rintro p rfl
+        exact ⟨by unfold decRule; simp, rfl⟩) (mok.zcore x hx)
+      have e1 : r = decRule c x.rule := by rw [← decode_rule, e]
+      have e2 : d = x.dot := by have := congrArg LR.Item.dot e; exact this.symm
+      rw [e1, e2]
+      exact this
+    · intro s X t' hd r d a hit
+      obtain ⟨hs, htr⟩ := delta_transition ok cells hd
+      obtain ⟨y, hy, e⟩ := (items_certOf (c := c) (fm := fm) (t := t) t' ⟨r, d, a⟩).mp hit
+      have hcr := mok.tcore _ htr y hy
+      simp only at hcr
+      have e1 : r = decRule c y.rule := by rw [← decode_rule, e]
+      have e2 : d = y.dot := by have := congrArg LR.Item.dot e; exact this.symm
+      rw [e1, e2]
+      refine coreReach_of_creach ?_ hcr
+      rintro p ⟨x', hx', rfl⟩
+      obtain ⟨x, hx, hsym, rfl⟩ := mem_transitionItems.mp hx'
+      refine ⟨x.dot, decodeLa c x.la, rhsOf c x.rule, rfl, ?_, rhsOf_dec hsym, hsym⟩
+      exact (items_certOf s _).mpr ⟨x, hx, rfl⟩
+  · intro s X t' hd
+    obtain ⟨_, htr⟩ := delta_transition (fm := fm) ok cells hd
+    obtain ⟨y, hy, _⟩ := mok.hasKernel _ htr
+    exact ⟨decodeItem c y, (items_certOf t' _).mpr ⟨y, hy, rfl⟩⟩
+
+/-- **C03 for every grammar in which every nonterminal is productive**: an error stop of the emitted parse
+loop has consumed a prefix of some sentence, its lookahead is the first offending token, and `Err(None)`
+happens only on a proper prefix of a sentence -/
+theorem emitted_parser_first_offending {P : Type} [Inhabited P] (ok : CtxOK c) {fuel : Nat}
+    (hm : machineOf c fuel = some (some m)) (ht : machineToTable c m = .ok t)
+    (hp : Valid.productiveB c.g = true) (w : List (Tok Nat P)) (fuel' : Nat) (cf : Cfg Nat P)
+    (hrun : runCfg c.g (Driver.autoOfTable t) fuel' ⟨[(Driver.autoOfTable t).start], [], w⟩ = some (.err, cf)) :
+    ∃ pre, w = pre ++ cf.rest ∧
+      (∃ suf tr, WF c.g tr (.n c.g.start) ∧ tr.yield = pre ++ suf) ∧
+      (∀ a r, cf.rest = a :: r → ∀ r' tr, WF c.g tr (.n c.g.start) → tr.yield ≠ pre ++ a :: r') ∧
+      (cf.rest = [] → ∀ tr, WF c.g tr (.n c.g.start) → tr.yield ≠ w) := by
+  obtain ⟨fm, hfm, mok⟩ := machineOf_ok ok.terms hm
+  have cells := machineToTable_cells ht
+  have hk := checked_of_generator ok (firstSets_bound ok.terms hfm) (firstSets_closed hfm).1 mok cells
+  have hs := Valid.sound_of_checked hk
+  have hc := Valid.complete_of_checked (P := P) hk
+  obtain ⟨hcs, hne⟩ := coreSound_of_generator ok mok cells
+  have hrun' : runCfg c.g (Valid.mkAuto (certOf c fm m t)) fuel'
+      ⟨[(Valid.mkAuto (certOf c fm m t)).start], [], w⟩ = some (.err, cf) := by
+    rw [← runCfg_congr (fun cfg => step_eq (fm := fm) cells cfg), (auto_eq (fm := fm) cells).2.2]
+    exact hrun
+  obtain ⟨hsteps, herr⟩ := steps_of_runCfg fuel' _ _ _ hrun'
+  exact first_offending hs hc hcs hne (Valid.productiveB_sound hp) hsteps herr
 
 end Universal
 end KikiVerif
